@@ -35,24 +35,25 @@ def plan(tier, seed):
 def check_case(b, bp, ref, mi, tree, res: Result, w, rng):
     cls = b.bp_class(mi.full_name)
     rcls = b.ref_class(mi.full_name)
-    # ---- encode direction
-    try:
-        data = bytes(bp.make(mi, tree, "ctor"))
-    except Exception as e:
-        res.violation("encode-raises", ["encode", "raised:" + type(e).__name__], f"{mi.full_name}: bytes() raised {e!r}", w)
+    # ---- encode direction (built through the constructor and by in-place filling)
+    for route in ("ctor", "inplace"):
+      try:
+        data = bytes(bp.make(mi, tree, route))
+      except Exception as e:
+        res.violation("encode-raises", ["encode", route, "raised:" + type(e).__name__], f"{mi.full_name}: bytes() raised {e!r}", w)
         data = None
-    if data is not None:
-        try:
-            r = rcls.FromString(data)
-        except Exception as e:
-            res.violation("encode", ["reference-rejects", type(e).__name__],
-                          f"{mi.full_name}: google.protobuf rejects betterproto's bytes {data.hex()[:200]}: {e!r}", w)
-            r = None
-        if r is not None:
-            res.note("encode_compared")
-            for d in diff_trees(b, mi, tree, ref.norm(mi, r)):
-                res.violation("encode", diff_signature(b, d),
-                              f"{mi.full_name}: reference decodes betterproto bytes differently: {d.short()}", w)
+      if data is not None:
+          try:
+              r = rcls.FromString(data)
+          except Exception as e:
+              res.violation("encode", ["reference-rejects", type(e).__name__],
+                            f"{mi.full_name}: google.protobuf rejects betterproto's bytes {data.hex()[:200]}: {e!r}", w)
+              r = None
+          if r is not None:
+              res.note("encode_compared")
+              for d in diff_trees(b, mi, tree, ref.norm(mi, r)):
+                  res.violation("encode", ([] if route == "ctor" else [route]) + diff_signature(b, d),
+                                f"{mi.full_name}: reference decodes betterproto bytes differently: {d.short()}", w)
     # ---- decode direction
     e0 = ref.make(mi, tree).SerializeToString()
     _decode_one(b, bp, ref, mi, cls, rcls, e0, "identity", res, w)
